@@ -538,6 +538,10 @@ type c05Op struct {
 	msg    *mqtt.Message
 	subs   []mqtt.Subscription
 	topics []string
+	// round 9: when setID, the 32-bit identifier counter of every connection's BaseClient is put
+	// to idLast right after Connect (hook VerifSetIDLast), so the next identifier taken is idLast+1
+	setID  bool
+	idLast uint32
 }
 
 func (o *c05Op) start(ctx context.Context, cli *mqtt.BaseClient) error {
@@ -559,6 +563,9 @@ func c05RetryRun(op *c05Op, cuts []c05Cut) (conns [][][]byte, problem string, er
 		rc, err := c05RetryConn(cut)
 		if err != nil {
 			return conns, fmt.Sprintf("connection %d could not be established: %v", k+1, err), nil
+		}
+		if op.setID {
+			rc.cli.VerifSetIDLast(op.idLast)
 		}
 		var e error
 		done := make(chan struct{})
@@ -659,6 +666,7 @@ func c05Retry(cfg *runCfg, r *rand.Rand, cf *casesFile, m *meta, dist map[string
 		kind string
 		qos  byte
 		cuts []c05Cut
+		ctr  *uint32 // identifier counter before the request (nil = as seeded by Connect)
 	}
 	var jobs []job
 	rounds := 2
@@ -667,24 +675,33 @@ func c05Retry(cfg *runCfg, r *rand.Rand, cf *casesFile, m *meta, dist map[string
 	}
 	for round := 0; round < rounds; round++ {
 		for _, s := range c05RetryScripts(false) {
-			jobs = append(jobs, job{"pub", 1, s}, job{"sub", 0, s}, job{"unsub", 0, s})
+			jobs = append(jobs, job{"pub", 1, s, nil}, job{"sub", 0, s, nil}, job{"unsub", 0, s, nil})
 		}
 		for _, s := range c05RetryScripts(true) {
-			jobs = append(jobs, job{"pub", 2, s})
+			jobs = append(jobs, job{"pub", 2, s, nil})
 		}
 	}
 	if cfg.tier != "quick" {
 		for i := 0; i < 60*scale; i++ {
 			switch r.Intn(5) {
 			case 0:
-				jobs = append(jobs, job{"pub", 1, c05RetryChain(r, false)})
+				jobs = append(jobs, job{"pub", 1, c05RetryChain(r, false), nil})
 			case 1:
-				jobs = append(jobs, job{"sub", 0, c05RetryChain(r, false)})
+				jobs = append(jobs, job{"sub", 0, c05RetryChain(r, false), nil})
 			case 2:
-				jobs = append(jobs, job{"unsub", 0, c05RetryChain(r, false)})
+				jobs = append(jobs, job{"unsub", 0, c05RetryChain(r, false), nil})
 			default:
-				jobs = append(jobs, job{"pub", 2, c05RetryChain(r, true)})
+				jobs = append(jobs, job{"pub", 2, c05RetryChain(r, true), nil})
 			}
+		}
+	}
+	// round 9: the identifier counter is a uint32 that is never reduced; place it just below every
+	// kind of multiple of 65536 (first wrap, second, third, the last before and the uint32 overflow)
+	// and issue each kind of request, completing at once and interrupted once
+	for _, v := range []uint32{0xFFFE, 0xFFFF, 0x1FFFE, 0x1FFFF, 0x2FFFF, 0xFFFEFFFF, 0xFFFFFFFE, 0xFFFFFFFF} {
+		v := v
+		for _, cuts := range [][]c05Cut{{{}}, {{1, 0}, {}}} {
+			jobs = append(jobs, job{"pub", 1, cuts, &v}, job{"pub", 2, cuts, &v}, job{"sub", 0, cuts, &v}, job{"unsub", 0, cuts, &v})
 		}
 	}
 	var cases []string
@@ -700,10 +717,15 @@ func c05Retry(cfg *runCfg, r *rand.Rand, cf *casesFile, m *meta, dist map[string
 		var opCoq func() string
 		given := 0
 		fc := map[string]interface{}{}
+		if j.ctr != nil {
+			op.setID, op.idLast = true, *j.ctr
+			fc["identifier_counter_before"] = fmt.Sprintf("BaseClient.idLast = 0x%X on every connection (VerifSetIDLast after Connect)", *j.ctr)
+			dist["retry_counter_boundary"]++
+		}
 		switch j.kind {
 		case "pub":
 			op.msg = &mqtt.Message{Topic: c05Strings[r.Intn(len(c05Strings))], Payload: c05RetryPayload(r), QoS: mqtt.QoS(j.qos), Retain: r.Intn(2) == 0, Dup: r.Intn(4) == 0}
-			if r.Intn(3) == 0 {
+			if j.ctr == nil && r.Intn(3) == 0 {
 				op.msg.ID = uint16([]int{1, 255, 256, 65535, 1 + r.Intn(65535)}[r.Intn(5)])
 			}
 			given = int(op.msg.ID)
